@@ -276,13 +276,16 @@ class Check(PropertyCheck):
                   "for any time-zone skew of the naive clock; offsets regenerated from certs.py), plan_wellformed (serverAuth EKU, SAN critical iff "
                   "no CN, CN only with 0<len<64 and equal to the first name, SANs distinct), upstream_never_blocks (no upstream name makes get_cert "
                   "raise); added in round 3: sources_all_named (nothing is dropped: the SAN set IS the source set — a host below an upstream wildcard stays), "
-                  "leaf_names_all_sources (no cap: every source name is a SAN of the leaf however long the upstream list; tied on upstream lists of up to 300 names), "
+                  "requested_host_kept_verbatim / requested_ip_kept_packed / get_cert_total_ascii (with `_ip_or_dns_name` TRANSCRIBED for ASCII input — C22's ipaddress "
+                  "parser + the idna codec's ASCII fast path, tied to the real function by C15's `cls` cases: an ASCII host-name SNI is in the leaf verbatim, an IP "
+                  "literal as its packed address, and get_cert cannot raise for them), leaf_names_all_sources (no cap: every source name is a SAN of the leaf however long the upstream list; tied on upstream lists of up to 300 names), "
                   "sans_in_source_order (SANs = source list minus later repetitions, same head), matches_requested_openssl (C15's transcription of OpenSSL's host "
                   "check accepts the leaf for the requested name too), valid_throughout (valid from issue until expiry-2d-14h for any zone skew). Model tied to the code by comparing the model's field plan with the parsed real certificate; independently every real "
                   "certificate is verified by cryptography.x509.verification as a server certificate for the requested SNI/IP.")
     level_note = ("PARTIAL (relative to library laws): ASN.1 encoding, signing, chain building, EKU/validity enforcement are `cryptography`'s and enter "
-                  "only through the differential run (strict verifier as oracle); `_ip_or_dns_name` (ipaddress + idna codec) is a parameter `classify` of the "
-                  "model — the theorems hold for every such function, the harness supplies the real classification per case; urlsplit/urlunsplit of the CRL "
+                  "only through the differential run (strict verifier as oracle); `_ip_or_dns_name` is a parameter `classify` of the model for the general theorems (they hold for every "
+                  "such function; the harness supplies the real classification per case) and is additionally transcribed for ASCII input (classifyAscii; non-ASCII "
+                  "names — the codec's nameprep/punycode path — stay a parameter); urlsplit/urlunsplit of the CRL "
                   "URL are the harness's. The CertStore lookup/caching branch is C17's (the store is emptied before every case). SNI values that the strict "
                   "verifier refuses as reference identifiers (wildcard-looking, underscore, trailing dot, leading hyphen) are checked for chain validity and name "
                   "provenance only — plus, since the oracle audit, the RFC 6125 name rule applied directly to the leaf's SAN list. "
